@@ -650,7 +650,10 @@ class Interp:
                 return TOP
             if op in ("Add", "AddWithOverflow", "AddUnchecked"):
                 r = a + b
-                return Agg("tuple", None, None, [r, False]) if op == "AddWithOverflow" else r
+                # (integers are unbounded here; the widest machine integer the crate computes with is 64 bits: a sum that
+                # leaves it overflows whatever the operand type is)
+                ov = isinstance(r, int) and not isinstance(r, bool) and (r >= 2 ** 64 or r < -2 ** 63)
+                return Agg("tuple", None, None, [r, ov]) if op == "AddWithOverflow" else r
             if op in ("Sub", "SubWithOverflow", "SubUnchecked"):
                 r = a - b
                 if op == "SubWithOverflow":
@@ -658,7 +661,8 @@ class Interp:
                 return r
             if op in ("Mul", "MulWithOverflow", "MulUnchecked"):
                 r = a * b
-                return Agg("tuple", None, None, [r, False]) if op == "MulWithOverflow" else r
+                ov = isinstance(r, int) and not isinstance(r, bool) and (r >= 2 ** 64 or r < -2 ** 63)
+                return Agg("tuple", None, None, [r, ov]) if op == "MulWithOverflow" else r
             if op == "Div":
                 if isinstance(a, float) or isinstance(b, float):
                     if b == 0:
@@ -1163,6 +1167,12 @@ def std_oracle(interp, env, f, args, t, bb, path):
                 return max(0, xs[0] - xs[1]) if unsigned else xs[0] - xs[1]
             if name in ("saturating_add", "wrapping_add") and len(xs) == 2:
                 return xs[0] + xs[1]
+            if name == "div_ceil" and len(xs) == 2:
+                return "DIVERGE" if xs[1] == 0 else -(-xs[0] // xs[1])
+            if name == "div_floor" and len(xs) == 2:
+                return "DIVERGE" if xs[1] == 0 else xs[0] // xs[1]
+            if name == "next_multiple_of" and len(xs) == 2:
+                return "DIVERGE" if xs[1] == 0 else -(-xs[0] // xs[1]) * xs[1]
             if name == "abs_diff" and len(xs) == 2:
                 return abs(xs[0] - xs[1])
             if name in ("min", "max") and len(xs) == 2:
